@@ -2,8 +2,9 @@
 (* Trace validation for CUSUM.  target / sd_hat are public attributes; the cumulative sums are
    private (logged as "NA" when not readable, then unconstrained - soundness rule 1). *)
 EXTENDS Cusum, TraceLib
-tvars == <<cusumvars, tid, l>>
-Init == /\ tid \in 1..NTr /\ l = 1 /\ InitWith(Traces[tid].cfg)
+VARIABLE dirty       \* the caller has called reset() while target / deviation were still unknown (first burn-in interrupted)
+tvars == <<cusumvars, dirty, tid, l>>
+Init == /\ tid \in 1..NTr /\ l = 1 /\ InitWith(Traces[tid].cfg) /\ dirty = FALSE
 Counters == /\ Chk("total", total', Ev.total) /\ Chk("since", since', Ev.since) /\ Chk("state", st', Ev.state)
 NumChk(name, a, b) == IF b = "NA" THEN TRUE
                       ELSE IF a = "None" \/ b = "None" THEN Chk(name, a, b)
@@ -11,12 +12,15 @@ NumChk(name, a, b) == IF b = "NA" THEN TRUE
 Stats == /\ NumChk("target", target', Ev.target) /\ NumChk("sd", sd', Ev.sd)
          /\ NumChk("sh", sh', Ev.sh) /\ NumChk("sl", sl', Ev.sl)
 Update == /\ More /\ Ev.op = "update" /\ Ev.raised = "None"
-          /\ Step(Ev.x) /\ Counters /\ Stats /\ Adv
+          /\ IF dirty /\ target = "None" /\ since + 1 = cfg.burn /\ st # "drift"
+               THEN StepGiven(Ev.x, Ev.target, Ev.sd) /\ dirty' = FALSE
+               ELSE Step(Ev.x) /\ dirty' = dirty
+          /\ Counters /\ Stats /\ Adv
 ZeroSd == /\ More /\ Ev.op = "update" /\ Ev.raised = "ValueError" /\ Ev.counted
-          /\ RejectZeroSd(Ev.x) /\ Counters /\ Adv
-Refused == /\ More /\ Ev.op = "bad" /\ Ev.raised = "ValueError" /\ ~Ev.counted /\ (UNCHANGED cusumvars \/ PendingReset) /\ Counters /\ Adv
-(* reset() by the caller (once target and deviation are known): the sums restart, the statistics stay - they change after a DRIFT only *)
-Rst == /\ More /\ Ev.op = "reset" /\ Reset /\ Counters /\ Stats /\ Adv
+          /\ RejectZeroSd(Ev.x) /\ Counters /\ dirty' = dirty /\ Adv
+Refused == /\ More /\ Ev.op = "bad" /\ Ev.raised = "ValueError" /\ ~Ev.counted /\ (UNCHANGED cusumvars \/ PendingReset) /\ Counters /\ dirty' = dirty /\ Adv
+(* reset() by the caller: the sums restart, the statistics stay - they change after a DRIFT only (a reset inside the first burn-in: see StepGiven) *)
+Rst == /\ More /\ Ev.op = "reset" /\ Reset /\ Counters /\ Stats /\ dirty' = (dirty \/ target = "None") /\ Adv
 Next == Update \/ ZeroSd \/ Refused \/ Rst
 Spec == Init /\ [][Next]_tvars
 ==========================================================================
